@@ -202,5 +202,14 @@ def share_node(rng, raw, name='sh1', need=None):
     elif 'm' in parent and rng.random() < 0.5:
         parent['m'].append([name + '_again', al])
     else:
-        raw['m'].append(['shared', al if rng.random() < 0.6 else {'m': [['first', al], ['n', {'s': {'l': 2}}]]}])
+        if rng.random() < 0.45:
+            raw['m'].append(['shared', al])
+        else:
+            # the alias inside a mapping of its own, half of the time a TAGGED one (a tagged node is constructed deeply; the
+            # anchored container, when untagged, is still waiting to be filled at that moment - repo fix D53)
+            wrap = {'m': [['first', al], ['n', {'s': {'l': 2}}]]}
+            if rng.random() < 0.6:
+                wrap['kw'] = rng.choice([{'prio': 1}, {'prio': -1}, {'safe': False}, {'del': False}, {'new': True}, {'del': True}])
+                wrap['t'] = {'k': 'plain'}
+            raw['m'].append(['shared', wrap])
     return raw
